@@ -2,7 +2,7 @@
 //! against a BTreeMap reference model.
 
 use crate::core::*;
-use crate::instr::{alloc_arm, alloc_disarm, closure_sees, NKey, SimKey};
+use crate::instr::{alloc_arm, alloc_disarm, closure_sees, FKey, NKey, SimKey};
 use crate::op::{Flow, Op, Step};
 use crate::rng::Rng;
 use crate::snap::{self, Slot, Snap};
@@ -295,6 +295,111 @@ impl KColl for ListN {
     }
 }
 
+// ---- fat instantiation: KeyExpTree<FKey, i32, i64> / KeyExpList<FKey, i32, i64> (280-byte keys) ----
+
+type TreeF = KeyExpTree<FKey, i32, i64>;
+type ListF = KeyExpList<FKey, i32, i64>;
+
+macro_rules! fat_common {
+    () => {
+        fn insert(&mut self, k: SimKey, v: i64, t: i32) {
+            KeyExpCollection::insert(self, FKey::from_sim(k), v, t)
+        }
+        fn get(&mut self, t: i32, k: SimKey) -> Option<i64> {
+            self.get_value(t, FKey::from_sim(k))
+        }
+        fn less(&mut self, t: i32, d: i64, k: SimKey) -> i64 {
+            self.first_less(t, d, FKey::from_sim(k))
+        }
+        fn leq(&mut self, t: i32, d: i64, k: SimKey) -> i64 {
+            self.first_less_or_equal(t, d, FKey::from_sim(k))
+        }
+        fn leq_by(&mut self, t: i32, d: i64, f: &dyn Fn(SimKey) -> Ordering) -> i64 {
+            self.first_less_or_equal_by(t, d, |k| f(k.to_sim()))
+        }
+        fn is_empty(&self) -> bool {
+            KeyExpCollection::is_empty(self)
+        }
+        fn clear(&mut self) {
+            KeyExpCollection::clear(self)
+        }
+        fn export(self: Box<Self>, t: i32) -> (Vec<i64>, usize, usize) {
+            let v = (*self).into_ordered_vec(t);
+            let c = v.capacity();
+            (v, c, std::mem::size_of::<i64>())
+        }
+    };
+}
+
+impl KColl for TreeF {
+    fn name(&self) -> &'static str {
+        "KeyExpTree"
+    }
+    fat_common!();
+    fn snapshot(&self) -> Option<Snap> {
+        let v = self.verif_snapshot();
+        Some(Snap {
+            root: v.root,
+            slots: v.slots.iter().map(|s| Slot { parent: s.parent, left: s.left, right: s.right, red: s.red, key: s.item.key, aux: s.item.exp }).collect(),
+            unused: v.unused,
+            unused_cap: v.unused_capacity,
+        })
+    }
+    fn stored(&self) -> Vec<SimKey> {
+        let v = self.verif_snapshot();
+        let mut out = Vec::new();
+        let mut stack: Vec<(u32, bool)> = Vec::new();
+        if v.root != snap::E {
+            stack.push((v.root, false));
+        }
+        let mut guard = 0usize;
+        while let Some((i, done)) = stack.pop() {
+            guard += 1;
+            if guard > 4 * v.slots.len() + 8 || i as usize >= v.slots.len() {
+                break;
+            }
+            let s = &v.slots[i as usize];
+            if done {
+                out.push(s.item.to_sim());
+            } else {
+                if s.right != snap::E {
+                    stack.push((s.right, false));
+                }
+                stack.push((i, true));
+                if s.left != snap::E {
+                    stack.push((s.left, false));
+                }
+            }
+        }
+        out
+    }
+    fn min_exp(&self) -> Option<i32> {
+        None
+    }
+    fn fresh(&self, cap: usize) -> Box<dyn KColl> {
+        Box::new(TreeF::new(cap))
+    }
+}
+
+impl KColl for ListF {
+    fn name(&self) -> &'static str {
+        "KeyExpList"
+    }
+    fat_common!();
+    fn snapshot(&self) -> Option<Snap> {
+        None
+    }
+    fn stored(&self) -> Vec<SimKey> {
+        self.verif_keys().iter().map(|k| k.to_sim()).collect()
+    }
+    fn min_exp(&self) -> Option<i32> {
+        Some(self.verif_min_exp())
+    }
+    fn fresh(&self, cap: usize) -> Box<dyn KColl> {
+        Box::new(ListF::new(cap))
+    }
+}
+
 #[derive(Clone, Copy, Debug, PartialEq)]
 pub struct MEnt {
     pub exp: i32,
@@ -392,12 +497,25 @@ impl KeyWorld {
         let mut colls: Vec<Option<Box<dyn KColl>>> = Vec::new();
         let mut names = Vec::new();
         let narrow = cfg.key_ty == 1;
+        let fat = cfg.key_ty == 2;
         if cfg.colls & C_TREE != 0 {
-            colls.push(Some(if narrow { Box::new(TreeN::new(cfg.cap)) as Box<dyn KColl> } else { Box::new(Tree::new(cfg.cap)) }));
+            colls.push(Some(if narrow {
+                Box::new(TreeN::new(cfg.cap)) as Box<dyn KColl>
+            } else if fat {
+                Box::new(TreeF::new(cfg.cap))
+            } else {
+                Box::new(Tree::new(cfg.cap))
+            }));
             names.push("KeyExpTree");
         }
         if cfg.colls & C_LIST != 0 {
-            colls.push(Some(if narrow { Box::new(ListN::new(cfg.cap)) as Box<dyn KColl> } else { Box::new(List::new(cfg.cap)) }));
+            colls.push(Some(if narrow {
+                Box::new(ListN::new(cfg.cap)) as Box<dyn KColl>
+            } else if fat {
+                Box::new(ListF::new(cfg.cap))
+            } else {
+                Box::new(List::new(cfg.cap))
+            }));
             names.push("KeyExpList");
         }
         let tmax = if narrow { 255 } else { i32::MAX };
